@@ -6,7 +6,23 @@ use rdp::core::event::BitmapEvent;
 const CANARY: u32 = 0xCA7A_C1A5;
 const GUARD: usize = 256;
 
+/// `blitz`: a COMPRESSED 32 bpp event whose data is only the format header, for degenerate
+/// geometries (zero width / height): fast_bitmap_transfer must refuse or paint nothing, not crash
+fn run_blitz(toks: &[&str], em: &mut Emitter) {
+    let line = toks.join(" ");
+    let v: Vec<usize> = toks[1..].iter().map(|t| t.parse().unwrap()).collect();
+    let (width, buflen, left, top, right, bottom, bw, bh) = (v[0], v[1], v[2], v[3], v[4], v[5], v[6], v[7]);
+    em.case(&line, move || {
+        let mut buffer: Vec<u32> = (0..buflen).map(|j| 0xB000_0000 | j as u32).collect();
+        let ev = BitmapEvent { dest_left: left as u16, dest_top: top as u16, dest_right: right as u16, dest_bottom: bottom as u16, width: bw as u16, height: bh as u16, bpp: 32, is_compress: true, data: vec![0x10] };
+        let r = crate::gui::verif_fast_bitmap_transfer(&mut buffer, width, ev);
+        let cells: Vec<String> = buffer.iter().enumerate().map(|(j, c)| if *c == (0xB000_0000 | j as u32) { ".".to_string() } else { format!("?{:08x}", c) }).collect();
+        Obs::new(format!("{} {}", if r.is_ok() { "ok" } else { "E" }, cells.join(","))).nt(true)
+    });
+}
+
 pub fn run_case(toks: &[&str], em: &mut Emitter) {
+    if toks[0] == "blitz" { return run_blitz(toks, em); }
     let line = toks.join(" ");
     let v: Vec<usize> = toks[1..].iter().map(|t| t.parse().unwrap()).collect();
     let (width, buflen, left, top, right, bottom, bw, bh, imgpix, extra) = (v[0], v[1], v[2], v[3], v[4], v[5], v[6], v[7], v[8], v[9]);
@@ -60,6 +76,12 @@ fn emit(em: &mut Emitter, v: &[usize]) {
 
 pub fn generate(thorough: bool, seed: u64, part: (usize, usize), em: &mut Emitter) {
     let mut r = Rng::new(seed ^ 0xC19);
+    if part.0 == 0 {
+        for &(bw, bh) in &[(0usize, 0usize), (0, 1), (0, 3), (1, 0), (5, 0), (1, 1), (2, 2)] { for &(l, t, rr, b) in &[(0usize, 0usize, 0usize, 0usize), (0, 0, 1, 1), (1, 1, 0, 0), (0, 0, 3, 3)] {
+            let line = format!("blitz 4 16 {} {} {} {} {} {}", l, t, rr, b, bw, bh);
+            let toks: Vec<&str> = line.split(' ').collect(); run_case(&toks, em);
+        } }
+    }
     // exhaustive small geometries: window ≤ W×H, coordinates ≤ C, image ≤ I×I
     let (wmax, cmax, imax) = if thorough { (4usize, 5usize, 3usize) } else { (3, 3, 2) };
     let mut idx = 0usize;
